@@ -37,7 +37,7 @@ func main() {
 			"direct and via a harness downstream proxy; offset-stamped streams in both directions at once (early data coalesced with / split around the CONNECT head, " +
 			"target bytes coalesced with the downstream proxy's 200 head, ping-pong messages, bulk 0 B..1 MiB quick / 8 MiB thorough with PRNG chunking and pauses); " +
 			"one end closes (full or half close) before/during/after the peer's stream; on TCP also abortive closes (SO_LINGER 0, close with unread input) while the peer sits idle; " +
-			"uploads to an end that half-closed first and reads slowly; a client that half-closes right behind the CONNECT head; long-lived tunnels that fall silent for 12 s (quick) / 35 s (thorough) and then talk again; " +
+			"connections the proxy cannot half-close (net.Conn-only wrappers on the dial and/or accept side, trafficshape.Listener); eleven downstream 2xx answers (200/201/202/204/299, HTTP/1.0 and 1.1) cycled over the cases; uploads to an end that half-closed first and reads slowly; a client that half-closes right behind the CONNECT head; long-lived tunnels that fall silent for 12 s (quick) / 35 s (thorough) and then talk again; " +
 			"and a swarm family: 4-16 concurrent tunnels x 3-5 rounds through one proxy and one downstream proxy whose targets speak first in the same write as the 200 head, optional PRNG-delayed response modifier. A class is route x transport x early-data bucket x observed split x " +
 			"who closed first x close mode x observed close timing x size bucket, tallied only after the oracle ran on the case; plus unreachable-target classes (closed port, and dial functions failing at once with refused / timeout-class / DNS / network-unreachable / plain errors, both routes)",
 		Assumptions: []string{
